@@ -1,5 +1,5 @@
 from itertools import product
-from numpy import cos, pi, log, exp, mean, sqrt, tanh
+from numpy import cos, pi, log, exp, mean, sqrt, tanh, inf
 from numpy import array, ndarray, linspace, zeros, atleast_1d
 from scipy.integrate import simpson, quad
 from scipy.optimize import minimize
@@ -130,11 +130,15 @@ class UnimodalPdf(DensityEstimator):
         inverse_sort = sorter.argsort()
         v = x[sorter]
         intervals = zeros(x.size)
-        intervals[0] = (
-            quad(self.__call__, self.lwr_limit, v[0])[0]
-            if v[0] > self.lwr_limit
-            else 0.0
-        )
+        # the probability below 'lwr_limit' is not negligible for heavy-tailed fits, so the
+        # integral starts at minus infinity (in units of the fitted scale about the mode)
+        x0, s0 = self.MAP[0], self.MAP[1]
+        start = min(v[0], self.lwr_limit)
+        intervals[0] = quad(
+            lambda u: self.__call__(x0 + s0 * u) * s0, -inf, (start - x0) / s0
+        )[0]
+        if v[0] > self.lwr_limit:
+            intervals[0] += quad(self.__call__, self.lwr_limit, v[0])[0]
         for i in range(1, x.size):
             intervals[i] = quad(self.__call__, v[i - 1], v[i])[0]
         integral = intervals.cumsum()[inverse_sort]
